@@ -10,6 +10,15 @@ ops
   writenil s=<k> pl=<hex> bn= be=                  Write with a nil header
   burst s=<k> n=<count>                            n writes of a minimal header, digest only
   conc c0= ids=<ext id per goroutine, 0 = not negotiated> per= epochs= seed=
+  rtx s=<k> seq=<rtp seq> pos=outer|inner bn= be=   the packet first written on stream k with that RTP sequence
+                                                   number (and header SSRC = k: the NACK responder's rule) is sent
+                                                   again by a party that kept a copy — outer: from above the
+                                                   interceptor (the copy of what the application wrote goes through
+                                                   Write once more and gets a fresh number; the interceptor edits
+                                                   that copy in place); inner: from below it (what reached the bottom
+                                                   writer goes out again, byte for byte).  Valid for senders whose
+                                                   sequence numbers stay inside the responder's window and do not
+                                                   repeat (the ring itself is C04's subject).  Only the `w` line.
 outputs
   w hdr=<hex|err|nil> pad=<n> pl=<hex>             what reached the bottom writer
   ret n=<n> err=<class>                            what Write returned
@@ -27,6 +36,9 @@ structure St where
   held : List String := []
   /-- caller-owned receive buffers: k ↦ the header `Header.Unmarshal` yields and the payload behind it -/
   bufs : List (Nat × Header × Bytes) := []
+  /-- (stream, rtp seq) ↦ the copy a retransmitting party above the interceptor holds (header as written by the
+  application, later as edited by the interceptor on a retransmission) and the line that reached the bottom -/
+  sent : List ((Nat × Nat) × (Header × Bytes × Option String)) := []
 
 def parseDecls (s : String) : Option (List ExtDecl) :=
   if s == "-" then some [] else
@@ -161,7 +173,7 @@ def step (s : St) (ts : List String) : St × List String :=
   match ts with
   | "setc" :: rest =>
     match getNat (fields rest) "v" with
-    | some v => if v < M32 then ({ s with c := v, streams := [] }, []) else (s, ["bad-op"])
+    | some v => if v < M32 then ({ s with c := v, streams := [], sent := [] }, []) else (s, ["bad-op"])
     | none => (s, ["bad-op"])
   | "bind" :: rest =>
     let fs := fields rest
@@ -176,7 +188,32 @@ def step (s : St) (ts : List String) : St × List String :=
       | none => (s, ["bad-op"])
       | some id =>
         let (c', o) := write s.c id (some h) pl b
-        emit s c' o fs
+        let (s', lines) := emit s c' o fs
+        if h.ssrc == k then
+          let key := (k, h.seq)
+          ({ s' with sent := (key, (h, pl, (showOut o).find? (·.startsWith "w "))) :: s'.sent.filter (·.1 != key) }, lines)
+        else (s', lines)
+    | _, _, _, _ => (s, ["bad-op"])
+  | "rtx" :: rest =>
+    let fs := fields rest
+    match getNat fs "s", getNat fs "seq", lookup fs "pos", parseBottom fs with
+    | some k, some q, some pos, some b =>
+      match s.streams.lookup k with
+      | none => (s, ["bad-op"])
+      | some id =>
+        if q > 65535 ∨ s.retain ∨ (pos != "outer" ∧ pos != "inner") then (s, ["bad-op"]) else
+        match s.sent.lookup (k, q) with
+        | none => (s, [])                       -- never sent (or not this stream's SSRC): nothing is kept
+        | some (h, pl, line) =>
+          if pos == "inner" then (s, line.toList)
+          else
+            -- the kept copy goes through Write again; the interceptor sets the element on THAT header object
+            let (c', o) := write s.c id (some h) pl b
+            let h' := match o.forwarded with
+              | some (some h', _) => h'
+              | _ => h
+            ({ s with c := c', sent := ((k, q), (h', pl, line)) :: s.sent.filter (·.1 != (k, q)) },
+             (showOut o).filter (·.startsWith "w "))
     | _, _, _, _ => (s, ["bad-op"])
   | "writenil" :: rest =>
     let fs := fields rest
